@@ -391,6 +391,7 @@ pub fn generate(run_seed: u64, quick: bool) -> Scenario {
         fuel: crate::eval::fuel_override().unwrap_or(FUEL),
         corrupt_events: corrupt_events as u32,
         variants: vec![],
+        repeat_check: false,
     }
 }
 
